@@ -991,6 +991,46 @@ def r11_no_import_processing_without_docs(ctx):
                '%s returns Err on every path from the Err edge of bootstrap: %s; UserComponentDb::build propagates it before register_imported_components: %s' % (fn.split('::')[-1], ok1, ok2))
 
 
+REVIEWED_INSERT_ERROR_PANICS = {
+    # (function): reason the non-Conflict variants cannot occur
+    'user_components::router::DomainRouter::detect_domain_conflicts':
+        'the pattern comes from DomainGuard::matchit_pattern of a guard that DomainGuard::new validated (labels, one well-formed parameter per label): '
+        'it is a valid matchit route by construction (C20.R1/R3 decide the validation side)',
+}
+
+
+def r12_router_errors_are_not_assumed_away(ctx):
+    ctx.rule('C09.R12', 'P3 contradiction rule: pavexc inserts patterns into `matchit` routers in several places and reports `InsertError::Conflict`. The other '
+             'variants (InvalidParam, InvalidParamSegment, InvalidCatchAll ..) depend on the TEXT of the pattern; wherever the pattern is built from '
+             'what the user wrote (a route path, a prefix with a synthesised `{*catch_all}`), a branch that handles `Conflict` and declares the rest '
+             '`unreachable!` is a crash for some prefix: `/a/{id}_x` is a valid prefix, `/a/{id}_x{*catch_all}` is not a valid route. Every panic '
+             'reachable only through the non-Conflict edge of a match on `InsertError` is in the reviewed table.')
+    n = 0
+    PAN = ('core::panicking::', 'std::rt::begin_panic')
+    for b in ctx.fb.bodies('pavexc'):
+        if b.is_promoted:
+            continue
+        for sb in sorted(b.live_blocks()):
+            w = b.term(sb)
+            if not w or w['k'] != 'switch' or 'enum' not in w or not strip_generics(w['enum']).endswith('InsertError'):
+                continue
+            e = switch_edges(w)
+            if 'Conflict' not in e:
+                continue
+            n += 1
+            others = {tg for v, tg in e.items() if v != 'Conflict'} | ({w['else']} if w.get('else') is not None and w['else'] != e['Conflict'] else set())
+            excl = set()
+            for tg in others:
+                excl |= b.reachable(tg, avoid=[sb])
+            excl -= b.reachable(e['Conflict'], avoid=[sb])
+            pans = [(xb, t) for xb, t in b.calls() if xb in excl and (callee(t) or '').startswith(PAN)]
+            fn = b.nroot.replace(PX + 'analyses::', '').replace(PX, '')
+            rev = REVIEWED_INSERT_ERROR_PANICS.get(fn)
+            ctx.ob('C09.R12', 'insert-error-not-assumed-away|%s' % fn, not pans or rev is not None, b.loc(pans[0][0], pans[0][1]) if pans else b.loc(sb),
+                   '%s matches on matchit::InsertError; panics on the non-Conflict side: %d%s' % (fn, len(pans), (' — reviewed: ' + rev) if pans and rev else ''))
+    ctx.floor('C09.R12', 'matches on matchit::InsertError that single out Conflict', n, 2)
+
+
 def check(ctx):
     r4_nothing_assumes_success_before_the_gate(ctx)
     r1_no_silent_failure(ctx)
@@ -1003,3 +1043,4 @@ def check(ctx):
     r9_persisted_ids_are_checked_against_the_graph(ctx)
     r10_early_passes_do_not_underflow(ctx)
     r11_no_import_processing_without_docs(ctx)
+    r12_router_errors_are_not_assumed_away(ctx)
